@@ -2,6 +2,7 @@ package wm
 
 import (
 	"fmt"
+	"strings"
 
 	"golang.org/x/tools/go/ssa"
 )
@@ -201,6 +202,7 @@ func c02Core(c *Check, P string, r *RouterRoles) {
 	}
 
 	c02HelperResult(c, P+".O5", r, pubErrCalls)
+	c02PanicSafeLocks(c, P+".O4", r)
 
 	// O6 NO-PUBLISHER
 	if np := c.P.Method("message", "Router", "AddNoPublisherHandler"); c.Use(P+".O6", np, "Router.AddNoPublisherHandler") {
@@ -288,6 +290,20 @@ func c02Dispatch(c *Check, P string, r *RouterRoles) {
 				}
 			}
 			c.Report(all, P+".O7", "DISPATCH-ALL", L, g.Pos(), "go dispatch", "every received message is dispatched before the next receive or the loop's exit (none is dropped)")
+			// the loop is left only when the channel was closed
+			var closedEdges []Edge
+			for _, t := range Tests(L) {
+				if e, isE := t.X.(*ssa.Extract); isE && e.Tuple == rcv.(ssa.Value) && e.Index == 1 {
+					closedEdges = append(closedEdges, t.False)
+				}
+			}
+			okEnd := len(closedEdges) > 0
+			for _, ret := range Returns(L) {
+				if !GuardedBy(L, ret, closedEdges) {
+					okEnd = false
+				}
+			}
+			c.Report(okEnd, P+".O7", "LOOP-ENDS-ONLY-ON-CHANNEL-CLOSE", L, rcv.Pos(), "message loop", "the run loop (and with it the handler's accounting in Close) ends only when the subscriber closed the message channel — not on context cancellation, which would let Close return while the subscriber is still closing or delivering")
 		}
 	}
 }
@@ -485,4 +501,48 @@ func c02ChainHelper(c *Check, P string, r *RouterRoles) {
 		c.Report(ok, P+".O7", "CHAIN-HELPER-PANIC-IS-ERROR", f, recs[0].Pos(), "recover in the chain helper",
 			"a panic recovered inside the chain helper is turned into a non-nil error result (or re-raised): it must not look like a successful handler")
 	}
+}
+
+// c02PanicSafeLocks: a lock held while user code runs (the handler chain, the
+// publisher) must be released by a defer — the recover closure Nacks the message
+// but cannot release a lock that a plain Unlock after the call would have released.
+func c02PanicSafeLocks(c *Check, id string, r *RouterRoles) {
+	la := NewLockAn(c.P, "message")
+	var sites []ssa.CallInstruction
+	sites = append(sites, r.ChainCalls...)
+	sites = append(sites, r.ChainInner...)
+	seen := map[*ssa.Function]bool{}
+	var walk func(fn *ssa.Function, d int)
+	walk = func(fn *ssa.Function, d int) {
+		if fn == nil || seen[fn] || d < 0 {
+			return
+		}
+		seen[fn] = true
+		for _, cl := range CallsIn(fn) {
+			if IsCallTo(cl, nPublish) {
+				sites = append(sites, cl)
+			}
+			if cal := CalleeFn(cl.Common()); cal != nil && cal.Pkg == fn.Pkg && len(cal.Blocks) > 0 {
+				walk(cal, d-1)
+			}
+		}
+	}
+	walk(r.Dispatch, 3)
+	n := 0
+	for _, s := range sites {
+		fn := s.Parent()
+		res := la.Result(fn)
+		var bad []string
+		for lid := range la.Held(s) {
+			if _, atEntry := res.Entry[lid]; atEntry {
+				continue
+			}
+			if len(res.DeferredUnlock[lid]) == 0 {
+				bad = append(bad, lid)
+			}
+		}
+		n++
+		c.Report(len(bad) == 0, id, "PANIC-SAFE-LOCKS", fn, s.Pos(), "user code called under a lock", "no lock taken by the router is held across a call of user code (handler chain, publisher) unless it is released by a defer: a panic of that code must not leave the lock held for the handler's later messages", "held without deferred unlock: "+strings.Join(bad, ","))
+	}
+	c.Floor(id, "calls of user code on the dispatch path (chain, Publish)", n, 2)
 }
